@@ -816,29 +816,28 @@ def r_apply_validates(classes):
     def rule(P, R):
         for modname, cls in classes:
             fn = P.func(f'{modname}.{cls}.apply')
-            first = None
-            for s in fn.node.body:
-                if isinstance(s, ast.Expr) and isinstance(
-                        s.value, ast.Constant):
-                    continue
-                first = s
-                break
+            # the arity check is called with (op, v, w) before the first
+            # test on `op`
             ok = False
-            if isinstance(first, ast.Expr) and isinstance(
-                    first.value, ast.Call) and au.call_name(
-                        first.value) == 'assert_operator_arity':
-                a = first.value.args
-                ok = (len(a) >= 3 and [getattr(x, 'id', None)
-                                       for x in a[:3]] == ['op', 'v', 'w'])
+            for st in fn.node.body:
+                if any(isinstance(n, ast.Compare) and au.is_name(
+                        n.left, 'op') for n in ast.walk(st)) and not (
+                            isinstance(st, ast.Expr)):
+                    break
+                for c in au.calls_in(st, 'assert_operator_arity'):
+                    a = c.args
+                    if len(a) >= 3 and [getattr(x, 'id', None)
+                                        for x in a[:3]] == ['op', 'v', 'w']:
+                        ok = True
             if ok:
                 R.holds('R-VOCAB', fn.qualname,
-                        'arity check (op, v, w) is the first statement')
+                        'arity check (op, v, w) precedes the dispatch')
             else:
                 R.violation(
                     'R-VOCAB', 'validate-first', fn.qualname,
                     'assert_operator_arity',
-                    'apply does not start with '
-                    'assert_operator_arity(op, v, w, ...)',
+                    'apply does not call assert_operator_arity(op, v, w, '
+                    '...) before it dispatches on the operator',
                     unit=fn.unit.rel, line=fn.lineno)
     rule.NAME = 'R-VOCAB(apply validates arity first)'
     return rule
